@@ -89,6 +89,11 @@ double bx_floor(double x);
 double bx_ceil(double x);
 #endif
 static inline int bx_iabs(int x) { return x < 0 ? -x : x; }
+/* Fortran NINT: nearest integer, halves away from zero */
+static inline int bx_nint(double x) { return x >= 0.0 ? (int)(x + 0.5) : (int)(x - 0.5); }
+static inline int bx_imod(int a, int b) { return a % b; }
+/* std::lround: nearest integer, halves away from zero = Fortran NINT */
+#define bx_lround(x) ((long)bx_nint(x))
 static inline double bx_fmax(double a, double b) { return a < b ? b : a; }   /* std::max */
 static inline double bx_fmin(double a, double b) { return b < a ? b : a; }   /* std::min */
 static inline int bx_imax(int a, int b) { return a < b ? b : a; }
